@@ -185,6 +185,30 @@ def run_exe(bdir, tool, args, cwd, timeout=120):
     except subprocess.TimeoutExpired:
         return -999, "timeout"
 
+SENTINEL = b"C20 sentinel: this file existed before the command was run and must survive a rejected or failed run\n"
+
+def protect(c, scratch):
+    """before a run that must be rejected or must fail: every argument that is a path gets a content snapshot; a path
+    inside the scratch directory that does not exist yet (an output name) is pre-created with known content"""
+    snap = {}
+    for a in c["args"]:
+        if not a.startswith("/"): continue
+        if os.path.isfile(a):
+            try: snap[a] = open(a, "rb").read()
+            except OSError: pass
+        elif a.startswith(scratch) and os.path.isdir(os.path.dirname(a)) and not os.path.exists(a) and not os.path.basename(a).startswith("does_not_exist") and not c.get("keep_missing", {}).get(a):
+            with open(a, "wb") as fh: fh.write(SENTINEL)
+            snap[a] = SENTINEL
+    return snap
+
+def damaged(snap):
+    bad = []
+    for a, content in snap.items():
+        try: now = open(a, "rb").read()
+        except OSError: now = None
+        if now != content: bad.append(os.path.basename(a) + (" (removed)" if now is None else " (%d -> %d bytes)" % (len(content), len(now))))
+    return bad
+
 def listing(d):
     out = {}
     for root, dirs, files in os.walk(d):
@@ -522,6 +546,55 @@ def gen_tools_cases(R, rng, quick, fsets):
                   hcase="MESHCAT %s %s %s" % (fs["srcmesh"], other, ref), cls="typed", model=fs["name"], suffix=osfx,
                   typed={"-i1": fs["srcmesh"], "-i2": other, "-o": out}, sym="om_mesh_concat -i1 a.tri -i2 b.tri -o out" + osfx, desc="om_mesh_concat " + osfx)
 
+def gen_inplace_and_failing(R, rng, quick, fsets):
+    tools = dict.fromkeys(TOOL_PATH); tools.update({t["name"]: t for t in R.tools})
+    fs = fsets[0]; od = os.path.join(fs["dir"], "inplace"); os.makedirs(od, exist_ok=True)
+    o = lambda n: os.path.join(od, n)
+    def copy_later(src, dst):          # the source is produced by an earlier case of the same run: copied just before the run
+        return {"copy": (src, dst)}
+    # (b) output == input where the operation is well defined
+    if "om_minverser" in tools and "hm" in fs:
+        for sfx in (".bin", ".mat"):
+            f = o("hm_inplace" + sfx)
+            R.add(tool="om_minverser", args=[f, f], off=0, expect="ok", outs=[(f, o("ref_hm_inplace" + sfx), "sym")], hcase="MINV %s %s" % (o("hm_src" + sfx), o("ref_hm_inplace" + sfx)),
+                  pre=[("convert", fs["hm"], o("hm_src" + sfx)), ("copy", o("hm_src" + sfx), f)], cls="inplace", model=fs["name"], suffix=sfx,
+                  sym="om_minverser hm%s hm%s (in place)" % (sfx, sfx), desc="om_minverser with the same file as input and output (%s)" % sfx)
+    if "om_matrix_convert" in tools and "dsm" in fs:
+        for kind, key in (("matrix", "dsm"), ("sym", "hm"), ("sparse", "h2em")):
+            if key not in fs: continue
+            f = o("conv_inplace_%s.bin" % kind)
+            R.add(tool="om_matrix_convert", args=["-i", f, "-o", f], off=0, expect="ok", outs=[(f, o("ref_conv_inplace_%s.bin" % kind), "bytes")], hcase=None, conv=(kind, o("ref_conv_inplace_%s.bin" % kind)),
+                  conv_in=fs[key], plan=dict(inp=f, in_fmt="auto", out=f, out_fmt="binary"), pre=[("copy", fs[key], f)], cls="inplace", model=fs["name"], suffix=".bin", typed={"-i": f, "-o": f},
+                  sym="om_matrix_convert -i %s.bin -o same file" % kind, desc="om_matrix_convert onto its own input (%s)" % kind)
+    if "om_mesh_convert" in tools:
+        f = o("mesh_inplace.tri")
+        R.add(tool="om_mesh_convert", args=["-i", f, "-o", f, "-tx", "0.25", "-sz", "2"], off=0, expect="ok", outs=[(f, o("ref_mesh_inplace.tri"), "bytes")],
+              hcase="MESHCONV %s %s 0.25 0 0 1 1 2 - 0" % (fs["srcmesh"], o("ref_mesh_inplace.tri")), pre=[("copy", fs["srcmesh"], f)], cls="inplace", model=fs["name"], suffix=".tri",
+              typed={"-i": f, "-o": f}, sym="om_mesh_convert -i m.tri -o m.tri -tx 0.25 -sz 2 (in place)", desc="om_mesh_convert onto its own input")
+    # (c) unusable inputs with an output file that already exists: the run must fail and leave the output as it was
+    od2 = os.path.join(fs["dir"], "failing"); os.makedirs(od2, exist_ok=True)
+    p = lambda n: os.path.join(od2, n)
+    garbage = p("garbage.bin")
+    with open(garbage, "wb") as fh: fh.write(bytes(rng.randrange(256) for _ in range(300)))
+    trunc = p("truncated_hm.bin"); missing = p("does_not_exist_input.bin")
+    bad_inputs = [("missing", missing, []), ("garbage", garbage, []), ("truncated", trunc, [("truncate", fs.get("hm", garbage), trunc)]),
+                  ("of another kind", fs.get("dsm", garbage), [])]
+    n = 0
+    for why, bad, pre in bad_inputs:
+        n += 1
+        def fk(tool, args, sym):
+            if tool in tools:
+                R.add(tool=tool, args=args, off=0, expect="failkeep", why=why, pre=pre, cls="failing-input", model=fs["name"], suffix="", sym=sym + " (input %s)" % why, cwd=od2,
+                      desc="%s with an input that is %s and an output file that already exists" % (tool, why))
+        fk("om_minverser", [bad, p("inv_out%d.bin" % n)], "om_minverser bad out")
+        if why != "of another kind" or True:
+            fk("om_matrix_convert", ["-i", bad, "-o", p("conv_out%d.txt" % n)], "om_matrix_convert -i bad -o out") if why != "of another kind" else None
+        fk("om_mesh_convert", ["-i", bad if why != "of another kind" else garbage + ".tri", "-o", p("mesh_out%d.tri" % n)], "om_mesh_convert -i bad -o out")
+        fk("om_mesh_concat", ["-i1", fs["srcmesh"], "-i2", bad if why != "of another kind" else garbage + ".tri", "-o", p("cat_out%d.tri" % n)], "om_mesh_concat -i1 good -i2 bad -o out")
+        if "gain_eeg" in fs and why != "of another kind": fk("om_forward", [bad, os.path.join(fs["dir"], "sources.txt"), p("fwd_out%d.txt" % n), "0"], "om_forward bad sources out 0")
+        if all(k in fs for k in ("dsm", "h2em")): fk("om_gain", ["-EEG", bad, fs["dsm"], fs["h2em"], p("gain_out%d.bin" % n)], "om_gain -EEG bad dsm h2em out")
+        fk("om_assemble", ["-HM", bad, fs["cond"], p("hm_out%d.bin" % n)], "om_assemble -HM bad cond out")
+
 def gen_rejects(R, rng, quick, fsets):
     tools = {t["name"]: t for t in R.tools}
     fs = fsets[0]; od = os.path.join(fs["dir"], "rejects"); os.makedirs(od, exist_ok=True)
@@ -753,8 +826,8 @@ def evaluate(ck, R, c, pred, rc, txt, before, after, hres):
             P("probe position not read in the model", "parameter %d (%s) is not read according to the generated table" % (p, r))
         if rc == 0:
             P("missing input file ignored", "the %s file (parameter %d) does not exist but the tool succeeded: it is read from another position" % (r, p))
-        if any(os.path.exists(q) for q in c["probe_outs"]):
-            P("output written although an input is missing", "outputs: %s" % [os.path.basename(q) for q in c["probe_outs"] if os.path.exists(q)])
+        bad = [os.path.basename(q) for q in c["probe_outs"] if not os.path.exists(q) or open(q, "rb").read() != SENTINEL]
+        if bad: P("output touched although an input is missing", "pre-existing outputs changed: %s" % bad)
     if c.get("want_variant") is not None and pred is not None and not pred.get("absent") and pred["final"] == "run" and pred["execs"]:
         if pred["execs"][0]["variant"] != c["want_variant"]:
             P("alias selects another variant than documented", "according to the generated table %s %s the adaptive integration; documented: %s" % (
@@ -774,6 +847,11 @@ def evaluate(ck, R, c, pred, rc, txt, before, after, hres):
             else:
                 d = [u - v for u, v in zip(x, y)]; rms = (sum(e * e for e in d) / max(1, len(d))) ** 0.5
                 if not (0.15 * lvl <= rms <= 4.0 * lvl): P("noise level not honoured", "rms difference to the noiseless data %.3g for level %g (%d values)" % (rms, lvl, len(d)))
+    if c.get("damaged"):
+        P("rejected or failed run modifies existing files", "files named on the command line changed although the run was rejected / failed: %s" % c["damaged"])
+    if exp == "failkeep":
+        if rc == 0: P("failing input accepted", "the input is %s but the tool reports success" % c.get("why", "unusable"))
+        if written: P("failed run writes files", "files appeared: %s" % written)
     # ---- typed options: value the model extracts = value documented
     if c.get("typed") and pred is not None and pred.get("vals") is not None:
         t = R.tools[R.tidx[c["tool"]]]
@@ -825,6 +903,7 @@ def main(replay=None):
     gen_pipeline(R, rng, fsets)
     gen_tools_cases(R, rng, quick, fsets)
     gen_documented(R, rng, fsets)
+    gen_inplace_and_failing(R, rng, quick, fsets)
     gen_rejects(R, rng, quick, fsets)
     gen_probes(R, rng, quick)
     if rp and rp.get("case_sym"):
@@ -845,15 +924,26 @@ def main(replay=None):
         if c.get("conv"):
             pl = (preds.get(c["id"]) or {}).get("plan") or c["plan"]; kind, ref = c["conv"]     # documented plan when the tool could not be translated
             if pl["inp"] and pl["out_fmt"]:
-                c["hcase"] = "MCONV %s %s %s %s %s" % (kind, pl["inp"], ref, "-" if pl["in_fmt"] == "auto" else pl["in_fmt"], pl["out_fmt"])
+                c["hcase"] = "MCONV %s %s %s %s %s" % (kind, c.get("conv_in") or pl["inp"], ref, "-" if pl["in_fmt"] == "auto" else pl["in_fmt"], pl["out_fmt"])
     # ---- executables (in order: later cases read files written by earlier ones)
     runs = {}
     for c in keep:
         if c["tool"] is None: continue
         cwd = c.get("cwd") or (os.path.dirname(c["outs"][0][0]) if c["outs"] else wd)
+        for act in c.get("pre", []):
+            try:
+                if act[0] == "copy": shutil.copy(act[1], act[2])
+                elif act[0] == "truncate":
+                    data = open(act[1], "rb").read(); open(act[2], "wb").write(data[:max(40, len(data) // 2)])
+                elif act[0] == "convert":
+                    if act[2].endswith(os.path.splitext(act[1])[1]): shutil.copy(act[1], act[2])
+                    else: run_exe(bdir, "om_matrix_convert", ["-i", act[1], "-o", act[2]], wd)
+            except OSError: pass
+        snap = protect(c, wd) if c["expect"] in ("reject", "help", "probe", "failkeep") else {}
         before = listing(cwd)
         rc, txt = run_exe(bdir, c["tool"], c["args"], cwd)
         runs[c["id"]] = (rc, txt, before, listing(cwd))
+        c["damaged"] = damaged(snap)
     ck.log("%d executables run at %.1fs" % (len(runs), time.time() - ck.t0))
     # ---- library calls (harness), then .mat comparisons through the library
     hc = [c for c in keep if c["hcase"]]
